@@ -32,6 +32,10 @@ def generate(rng, tier):
             cases.append(_case(regime, segs))
         for _ in range(3000 if tier == "thorough" else 300):
             cases.append(_case(regime, gen.rand_timeline(rng, regime)))
+        for _ in range(200 if tier == "thorough" else 25):
+            # the same, hours or days away from the origin
+            off = rng.choice(gen.FAR_SECONDS) * REGIMES[regime]["scale"]
+            cases.append(_case(regime, gen.shift(gen.rand_timeline(rng, regime, maxn=6), off)))
     return {"cases": cases, "meta": {"exhaustive": True, "small_scope_max_segments": k,
                                      "sizes": gen.stats(cases, {"n_segments": lambda c: len(c["segs"])})}}
 
